@@ -139,7 +139,7 @@ CLAIMS = {
              "and the row is the selection under it (Lemmas/FlatAdm.lean: evaluation only produces admissible bindings). Correspondence: "
              "parents with empty/overlapping/scalar/repeated/falsy inner values, every selection and condition shape incl. and_/or_, "
              "a parent that is an unselected query result (flatten(an(entity(p, c)).items)), the element constrained inside a "
-             "sub-query that does not select it.",
+             "sub-query that does not select it, a predicate (function / class form) whose two arguments are both the element.",
         note=BASE_NOTE + "Multiplicities for disjunctions and other combinations of conditions are covered by correspondence (the "
              "general theorems are set-level; the equivalence needs uniform disjunctions). With caching enabled a condition on "
              "the flattened element is subject to known finding C05-F2 (cache keyed on variables only).",
@@ -254,7 +254,7 @@ CLAIMS = {
              "several variables, flatten, for_all, sub-queries, rule trees - for "
              "which the full statement is false of the code: known findings C05-F1..F6). Decided there by the differential check: "
              "caching on vs off vs oracle vs the L2 machine, first and later evaluations (a third of the join cases after an "
-             "abandoned evaluation), over joins (1-4 variables, shuffled declaration order), disjunctions over equal/different "
+             "abandoned evaluation; a third built with the switch on and evaluated after disable_caching()), over joins (1-4 variables, shuffled declaration order), disjunctions over equal/different "
              "variable sets, negation, sub-queries, for_all, flatten, rule trees, with the number of cache hits taken reported.",
         note=BASE_NOTE + "A difference is attributed to C05-F1/F2 only when the L2 machine, which transliterates the cache code, "
              "reproduces the implementation's rows (for C05-F1 also: a cache observed non-prefix-uniform at a lookup, in a "
